@@ -73,6 +73,15 @@ func VH_C03_send_fate() {
 			w.sys.findMailbox(t.ref) // warms the per-reference mailbox cache, like any earlier Tell would
 		}
 	}
+	if t != nil && vrtChoose(2) == 1 {
+		// an attempt to spawn a second actor under the target's name is rejected
+		// and changes nothing: the path still designates the running target
+		_, err := w.root.ActorOf(&vhActor{name: "impostor"}, vivid.WithActorName("t"))
+		vrtAssert(err != nil, "duplicate-name-spawn-is-rejected")
+		reg, ok := w.sys.actorContexts.Load(t.ref.GetPath())
+		vrtAssert(ok && reg == any(t), "rejected-spawn-leaves-the-registry-entry-of-the-running-actor")
+		vrtReach("rejected-duplicate-spawn")
+	}
 	actors := []*vhActor{ta}
 	stashers := []*Context{}
 	switch state {
